@@ -94,17 +94,35 @@ func harnessFn(name string) externalFn {
 		}
 	case "verifYield", "verifSettle": // lets every other runnable goroutine run until it blocks
 		return func(fr *frame, a []value) value {
-			// the yielding goroutine becomes runnable again only when nobody else can run
-			// (it has the lowest id, so the scheduler would otherwise prefer it at once)
-			yielded := false
+			// the yielding goroutine becomes runnable again only when no goroutine that is not
+			// itself yielding can run (it may have the lowest id, so the scheduler would otherwise
+			// prefer it at once); several yielders resume in the order in which they yielded
+			started := false
 			s := fr.i.sch
 			self := s.cur
+			s.yieldSeq++
+			self.yielding, self.yieldSeq = true, s.yieldSeq
+			defer func() { self.yielding = false }()
 			fr.park(func() bool {
-				if !yielded {
-					yielded = true
+				if !started {
+					started = true
 					return false
 				}
-				return s.pick(self) == nil
+				for _, g := range s.gs {
+					if g == self || g.state == 2 {
+						continue
+					}
+					if g.yielding {
+						if g.yieldSeq < self.yieldSeq {
+							return false
+						}
+						continue
+					}
+					if g.state == 0 || (g.state == 1 && g.ready != nil && g.ready()) {
+						return false
+					}
+				}
+				return true
 			}, "yield")
 			return nil
 		}
